@@ -515,15 +515,27 @@ func c07R4(r *Report) {
 					if !ok {
 						continue
 					}
-					// the decrypt closure, or XORKeyStream on the cipher directly
-					_, isClosure := cc.Call.Value.(*ssa.MakeClosure)
-					isXor := isStdCall(cc, "crypto/rc4", "Cipher", "XORKeyStream")
-					if !isClosure && !isXor {
+					// XORKeyStream on the cipher directly, or a closure/helper of this package that runs that
+					// argument through XORKeyStream (decrypt(v), crypt(dec, v...))
+					if isStdCall(cc, "crypto/rc4", "Cipher", "XORKeyStream") {
+						if len(cc.Call.Args) == 3 && derivesFromSliceHigh(cc.Call.Args[2], lenv) {
+							found = true
+						}
 						continue
 					}
-					for _, a := range cc.Call.Args {
-						if isByteSlice(a.Type()) && derivesFromSliceHigh(a, lenv) {
-							found = true
+					h := cc.Call.StaticCallee()
+					if h == nil || h.Blocks == nil || relPkg(h) != relPkg(f) {
+						continue
+					}
+					for ai, a := range cc.Call.Args {
+						elems := []ssa.Value{a}
+						if ve := variadicElems(a); ve != nil {
+							elems = ve
+						}
+						for _, e := range elems {
+							if e != nil && isByteSlice(e.Type()) && derivesFromSliceHigh(e, lenv) && ai < len(h.Params) && xorsParam(h, ai) {
+								found = true
+							}
 						}
 					}
 				}
@@ -595,4 +607,47 @@ func mentionsLenOf(v, of ssa.Value, d int) bool {
 		}
 	}
 	return false
+}
+
+// xorsParam: the function passes the bytes of its idx-th parameter (a []byte, or the elements of a ...[]byte) to
+// rc4.Cipher.XORKeyStream as the source operand.
+func xorsParam(f *ssa.Function, idx int) bool {
+	if idx >= len(f.Params) {
+		return false
+	}
+	seen := map[ssa.Value]bool{}
+	var flows func(v ssa.Value, d int) bool
+	flows = func(v ssa.Value, d int) bool {
+		if v == nil || seen[v] || d > 10 || v.Referrers() == nil {
+			return false
+		}
+		seen[v] = true
+		for _, ref := range *v.Referrers() {
+			switch x := ref.(type) {
+			case *ssa.Call:
+				if isStdCall(x, "crypto/rc4", "Cipher", "XORKeyStream") && len(x.Call.Args) == 3 && x.Call.Args[2] == v {
+					return true
+				}
+			case *ssa.Index, *ssa.Phi, *ssa.Range, *ssa.Next, *ssa.Extract, *ssa.ChangeType:
+				if flows(x.(ssa.Value), d+1) {
+					return true
+				}
+			case *ssa.IndexAddr:
+				if x.X == v && flows(x, d+1) {
+					return true
+				}
+			case *ssa.UnOp:
+				if x.Op == token.MUL && flows(x, d+1) {
+					return true
+				}
+			case *ssa.Slice:
+				// v[:] keeps every byte
+				if x.X == v && x.Low == nil && x.High == nil && flows(x, d+1) {
+					return true
+				}
+			}
+		}
+		return false
+	}
+	return flows(f.Params[idx], 0)
 }
